@@ -273,3 +273,152 @@ func c08ForgottenLease(c *Ctx) {
 	r.Check("C08.O11.foundLeaseNotForgotten", load.ShortFunc(f), "a found lease is not reset to nil without being released", where, okAll && nphi > 0,
 		"a lease that the lookup found is set aside (nil) without releaseLeaseResources: the handler then treats the client as new, sends a second Accounting-Start with a fresh session id and overwrites the record — the first session is never accounted to a Stop")
 }
+
+// natural loop of a back edge b->h: nodes that reach b without passing h (plus h).
+func loopBody(h, b *ssa.BasicBlock) map[*ssa.BasicBlock]bool {
+	body := map[*ssa.BasicBlock]bool{h: true}
+	var stack []*ssa.BasicBlock
+	if !body[b] {
+		body[b] = true
+		stack = append(stack, b)
+	}
+	for len(stack) > 0 {
+		x := stack[len(stack)-1]
+		stack = stack[:len(stack)-1]
+		for _, p := range x.Preds {
+			if !body[p] {
+				body[p] = true
+				stack = append(stack, p)
+			}
+		}
+	}
+	return body
+}
+
+// c11ParserConsumesAll (rule C11.I9): the option parser shared by LCP/IPCP/IPv6CP returns a list only after it
+// consumed the whole option area: its scanning loop is left either through the loop condition or with an error.
+func c11ParserConsumesAll(c *Ctx) {
+	r := c.R
+	r.Rule("C11.I9.parserConsumesAll", "ParseLCPOptions leaves its scanning loop only through the loop condition (input exhausted) or by returning an error: options are never silently dropped from a Configure-Request before it is validated and acknowledged", 1)
+	f := c.fn("pkg/pppoe", "", "ParseLCPOptions")
+	if f == nil {
+		return
+	}
+	n := 0
+	ok := true
+	where := ""
+	for _, b := range f.Blocks {
+		for _, h := range b.Succs {
+			if !h.Dominates(b) {
+				continue
+			}
+			// back edge b->h
+			n++
+			body := loopBody(h, b)
+			for x := range body {
+				for _, s := range x.Succs {
+					if body[s] {
+						continue
+					}
+					if x == h {
+						continue // exit through the loop condition
+					}
+					// an exit from inside the body: must lead to an error return without re-joining the success path
+					errOnly := true
+					seen := map[*ssa.BasicBlock]bool{}
+					var walk func(y *ssa.BasicBlock)
+					walk = func(y *ssa.BasicBlock) {
+						if seen[y] || !errOnly {
+							return
+						}
+						seen[y] = true
+						if len(y.Instrs) > 0 {
+							if ret, isRet := y.Instrs[len(y.Instrs)-1].(*ssa.Return); isRet {
+								last := flow.ReturnValues(ret)
+								if len(last) == 0 {
+									errOnly = false
+									return
+								}
+								if k, isK := last[len(last)-1].(*ssa.Const); isK && k.Value == nil {
+									errOnly = false
+								}
+								return
+							}
+						}
+						for _, z := range y.Succs {
+							walk(z)
+						}
+					}
+					walk(s)
+					if !errOnly {
+						ok = false
+						where = c.P.Pos(instrPos(x.Instrs[len(x.Instrs)-1]))
+					}
+				}
+			}
+		}
+	}
+	r.Check("C11.I9.parserConsumesAll", load.ShortFunc(f), "loop exits: condition or error", where, ok && n > 0,
+		"the scanning loop can be left early with a successful result: the options after that point are never validated, so a Configure-Request carrying an unacceptable option behind the stop marker is acknowledged with a shorter list and the automaton opens on it")
+}
+
+// c10StablePoolIndex (rule C10.N7): allocations refer to pool entries by position, so the pool slice is append-only.
+func c10StablePoolIndex(c *Ctx) {
+	r := c.R
+	r.Rule("C10.N7.stablePoolIndex", "Allocation.PoolIndex is a position in Manager.pool: the slice only grows at its end (stores are appends to the current value; nothing copies within it), so an index handed out stays valid", 2)
+	n := 0
+	for _, f := range c.moduleFuncs() {
+		if f.Pkg == nil || !strings.HasSuffix(f.Pkg.Pkg.Path(), "pkg/nat") {
+			continue
+		}
+		fn := load.ShortFunc(f)
+		flow.Instrs(f, func(in ssa.Instruction) {
+			switch x := in.(type) {
+			case *ssa.Store:
+				if !strings.HasSuffix(flow.FieldOwner(x.Addr), "Manager.pool") {
+					return
+				}
+				n++
+				okS := false
+				switch v := x.Val.(type) {
+				case *ssa.Call:
+					if b, isB := v.Call.Value.(*ssa.Builtin); isB && b.Name() == "append" {
+						if u, isU := v.Call.Args[0].(*ssa.UnOp); isU && strings.HasSuffix(flow.FieldOwner(u.X), "Manager.pool") {
+							okS = true
+						}
+					}
+				case *ssa.MakeSlice:
+					okS = true
+				case *ssa.Const:
+					okS = true
+				case *ssa.Slice:
+					// make lowered to new [N]T + slice
+					if _, isA := v.X.(*ssa.Alloc); isA {
+						okS = true
+					}
+				}
+				r.Check("C10.N7.stablePoolIndex", fn, "store to Manager.pool is an append at the end", c.P.Pos(x.Pos()), okS,
+					"the pool slice is rebuilt or reordered while allocations hold positions in it: a live allocation's PoolIndex then names another public address, its release frees a block another subscriber still holds, and the next allocation hands that block out again")
+			case *ssa.Call:
+				if b, isB := x.Call.Value.(*ssa.Builtin); isB && b.Name() == "copy" {
+					dst := x.Call.Args[0]
+					for {
+						if sl, isS := dst.(*ssa.Slice); isS {
+							dst = sl.X
+							continue
+						}
+						break
+					}
+					if u, isU := dst.(*ssa.UnOp); isU && strings.HasSuffix(flow.FieldOwner(u.X), "Manager.pool") {
+						n++
+						r.Check("C10.N7.stablePoolIndex", fn, "no copy within Manager.pool", c.P.Pos(x.Pos()), false,
+							"entries are shifted inside the pool slice while allocations hold positions in it (see rule text)")
+					}
+				}
+			}
+		})
+	}
+	if n == 0 {
+		r.Check("C10.N7.stablePoolIndex", "pkg/nat", "stores to Manager.pool found", "-", false, "no store to Manager.pool")
+	}
+}
